@@ -2,37 +2,44 @@ package main
 
 import (
 	"fmt"
-	"os"
-	"sort"
+	"strings"
+	"time"
 
-	"github.com/elk-language/elk/types"
-	"github.com/elk-language/elk/value"
-	"github.com/elk-language/elk/types/checker"
 	"verifharness/elkrun"
 )
 
 func main() {
 	elkrun.Init()
-	env := checker.NewGlobalEnvironment()
-	for _, cn := range os.Args[1:] {
-		ns, ok := env.Std().Subtype(value.ToSymbol(cn))
-		_ = ok
-		n, _ := ns.Type.(types.Namespace)
-		if n == nil {
-			fmt.Println("no namespace", cn)
-			continue
-		}
-		fmt.Println("==", cn)
-		var names []string
-		mm := map[string]*types.Method{}
-		for name, m := range types.AllMethods(n) {
-			names = append(names, name.String())
-			mm[name.String()] = m
-		}
-		sort.Strings(names)
-		for _, nm := range names {
-			m := mm[nm]
-			fmt.Printf("%s\t%s\tnative=%v generic=%v under=%s\n", nm, m.InspectSignature(false), m.IsNative(), m.IsGeneric(), m.DefinedUnder.Name())
-		}
+	small := elkrun.ShowPrelude + "println(show(1))\n"
+	t := time.Now()
+	for i := 0; i < 20; i++ {
+		elkrun.Run(small, nil)
 	}
+	fmt.Println("small program:", time.Since(t)/20)
+	var b strings.Builder
+	b.WriteString(elkrun.ShowPrelude)
+	b.WriteString("def f(a: Float, b: Float)\n  do\n    x := a - b\n    println(show(x))\n  catch ::Std::Error() as e\n    println(\"ERR \" + e.class.name)\n  end\nend\n")
+	for i := 0; i < 200; i++ {
+		fmt.Fprintf(&b, "println(\"@@#%d\")\nf(1.5, 2.5)\n", i)
+	}
+	t = time.Now()
+	for i := 0; i < 5; i++ {
+		elkrun.Run(b.String(), nil)
+	}
+	fmt.Println("200 call items:", time.Since(t)/5)
+	b.Reset()
+	b.WriteString(elkrun.ShowPrelude)
+	for i := 0; i < 200; i++ {
+		fmt.Fprintf(&b, "println(\"@@#%d\")\ndo\n  x := 1.5 - 2.5\n  println(show(x))\ncatch ::Std::Error() as e\n  println(\"ERR \" + e.class.name)\ncatch e\n  println(\"ERR other\")\nend\n", i)
+	}
+	t = time.Now()
+	for i := 0; i < 5; i++ {
+		elkrun.Run(b.String(), nil)
+	}
+	fmt.Println("200 literal items:", time.Since(t)/5)
+	t = time.Now()
+	for i := 0; i < 5; i++ {
+		elkrun.Compile(b.String(), nil)
+	}
+	fmt.Println("200 literal items compile only:", time.Since(t)/5)
 }
